@@ -1911,22 +1911,26 @@ impl StorageEngine {
                 Value::String(bytes) => {
                     let len = bytes.len() as isize;
                     
-                    let start = if start < 0 {
-                        std::cmp::max(0, len + start) as usize
-                    } else {
-                        start as usize
-                    };
-                    
-                    let end = if end < 0 {
-                        std::cmp::max(-1, len + end) as usize
-                    } else {
-                        std::cmp::min(end as usize, len as usize - 1)
-                    };
-                    
-                    if start > end || start >= bytes.len() {
+                    if len == 0 || (start < 0 && end < 0 && start > end) {
                         Vec::new()
                     } else {
-                        bytes[start..=end].to_vec()
+                        let start = if start < 0 {
+                            std::cmp::max(0, len + start)
+                        } else {
+                            start
+                        };
+                        
+                        let end = if end < 0 {
+                            std::cmp::max(0, len + end)
+                        } else {
+                            std::cmp::min(end, len - 1)
+                        };
+                        
+                        if start > end {
+                            Vec::new()
+                        } else {
+                            bytes[start as usize..=end as usize].to_vec()
+                        }
                     }
                 }
                 _ => return Err(StorageError::WrongType.into()),
